@@ -8,7 +8,7 @@ import re
 VERIF = os.path.dirname(os.path.dirname(os.path.abspath(__file__)))
 
 TEXT = {
-    "C01": ("Contract proof (Verus) over the extracted path splitting, emulated walk (do_resolve/check_current), openat2 backend and Resolver dispatch: a complete lookup returns a handle with ghost lineage+witness for every path/tree, link budget and termination by loop measure, and on a static ghost tree the walk equals the kernel-walk spec function.",
+    "C01": ("Contract proof (Verus) over the extracted path splitting, emulated walk (do_resolve/check_current), openat2 backend and Resolver dispatch: a complete lookup returns a handle with ghost lineage+witness for every path/tree, link budget and termination by loop measure, and on a static ghost tree the walk equals the kernel-walk spec function; the symlink stack used for partial lookups is proved against an abstract view and specification (U25).",
             "kernel axioms A1-A4, std/rustix models (A7), vx rewrite rules; errno classes beyond ENOENT/ENOTDIR/ELOOP not compared"),
     "C02": ("Same contracts as C01 with every syscall result left arbitrary between calls (each syscall boundary is a preemption point): a handle leaves the resolver only with lineage+witness obtained after the last '..' step.",
             "relative to axioms A1-A3 (procfs witness); the kernel is not verified"),
@@ -30,7 +30,7 @@ TEXT = {
             "functions not under contract; remove_all's scan loop and the error-id retry loop have no measure (stated)"),
     "C11": ("Descriptor ownership is linear in the prelude (OwnedFd is not Clone, no forget); raw-fd escape hatches are enumerated by a scan and each is under contract (into_raw_fd only on Ok, borrow_raw only for non-negative fds); the openat2 wrapper is proved a second time with an explicit ledger of raw descriptors (nothing the kernel returned is dropped unowned); a ghost close-on-exec fact is carried from the syscall stubs through resolvers, Root, Handle and procfs to every returned descriptor.",
             "descriptors opened inside std/rustix (Dir::read_from), FrozenFd; Rc::try_unwrap uniqueness is assumed"),
-    "C12": ("Contract proof of mkdir_all: mode validation before any syscall, '..' refused, each mkdirat on the lineage chain with the requested mode, only EEXIST tolerated, returned handle is the chain's end; every lookup goes through the Root's configured resolver (rigid ghost constant, from the public wrapper down to the backend call).",
+    "C12": ("Contract proof of mkdir_all: mode validation before any syscall, '..' refused, each mkdirat on the lineage chain with the requested mode, only EEXIST tolerated, returned handle is the chain's end; every lookup goes through the Root's configured resolver (rigid ghost constant, from the public wrapper down to the backend call); the symlink stack that decides what a partial lookup reports is proved against its specification (U25).",
             "convergence of concurrent callers is not decided (mechanism only)"),
     "C13": ("Contract proof of utils::remove_all/remove_inode and Root::remove_all: '.'/'..'/'/'-containing names refused before any mutation, recursion only through O_NOFOLLOW|O_DIRECTORY opens of readdir names, only ENOENT swallowed and ENOENT never reported (a concurrent caller finished the removal).",
             "A1, A8; partial correctness only (no termination measure against an adversary)"),
